@@ -6,6 +6,7 @@
 // ties); boolean texts; keys without value.
 // --mode boolexh <maxlen> <shard> <nshards>: every string up to maxlen over the
 // reduced alphabet through the boolean getter.
+#include <cerrno>
 #include <cinttypes>
 #include <cmath>
 #include <cstring>
@@ -201,35 +202,46 @@ static void run_integer(Src &s) {
       VF_CHECK(e == ECONF_VALUE_CONVERSION_ERROR, "wrapped-integer",
                name << "('" << lit << "') rc=" << e << " (" << econf_errString(e) << ") value " << got << " but the literal is out of range for the type");
   };
+  // the getters must not depend on what an earlier call left in errno
+  static const int POISON[6] = {0, ERANGE, ENOENT, EINVAL, ERANGE, EDOM};
+  auto poison = [&]() { errno = POISON[s.below(6)]; };
   {
     int32_t r = 7;
+    poison();
     econf_err e = econf_getIntValue(kf, "N", "v", &r);
     expect("getInt", e, val >= INT32_MIN && val <= INT32_MAX, (i128)r == val, std::to_string(r));
     r = 7;
+    poison();
     e = econf_getIntValueDef(kf, "[N]", "v", &r, -9);
     expect("getIntDef", e, val >= INT32_MIN && val <= INT32_MAX, (i128)r == val, std::to_string(r));
   }
   {
     int64_t r = 7;
+    poison();
     econf_err e = econf_getInt64Value(kf, "N", "v", &r);
     expect("getInt64", e, val >= INT64_MIN && val <= INT64_MAX, (i128)r == val, std::to_string(r));
     r = 7;
+    poison();
     e = econf_getInt64ValueDef(kf, "N", "v", &r, -9);
     expect("getInt64Def", e, val >= INT64_MIN && val <= INT64_MAX, (i128)r == val, std::to_string(r));
   }
   {
     uint32_t r = 7;
+    poison();
     econf_err e = econf_getUIntValue(kf, "N", "v", &r);
     expect("getUInt", e, val >= 0 && val <= UINT32_MAX, (i128)r == val, std::to_string(r));
     r = 7;
+    poison();
     e = econf_getUIntValueDef(kf, "N", "v", &r, 9);
     expect("getUIntDef", e, val >= 0 && val <= UINT32_MAX, (i128)r == val, std::to_string(r));
   }
   {
     uint64_t r = 7;
+    poison();
     econf_err e = econf_getUInt64Value(kf, "N", "v", &r);
     expect("getUInt64", e, val >= 0 && val <= (i128)UINT64_MAX, (i128)r == val, std::to_string(r));
     r = 7;
+    poison();
     e = econf_getUInt64ValueDef(kf, "N", "v", &r, 9);
     expect("getUInt64Def", e, val >= 0 && val <= (i128)UINT64_MAX, (i128)r == val, std::to_string(r));
   }
@@ -332,9 +344,12 @@ static void run_float(Src &s) {
   g_case.nontrivial = lk >= 1;
   g_case.shape_hash = fnv_u64(bits * 8 + lk, is_double ? 3 : 5);
   g_case.evals = 2;
+  static const int POISONF[4] = {0, ERANGE, ENOENT, EINVAL};
   if (is_double) {
     double r = 0, r2 = 0;
+    errno = POISONF[s.below(4)];
     econf_err e = econf_getDoubleValue(kf, "N", "v", &r);
+    errno = POISONF[s.below(4)];
     econf_err e2x = econf_getDoubleValueDef(kf, "N", "v", &r2, 1.0);
     uint64_t wb = want | (neg ? 1ull << 63 : 0);
     VF_CHECK(e == ECONF_SUCCESS && dbits(r) == wb, "wrong-double",
@@ -342,7 +357,9 @@ static void run_float(Src &s) {
     VF_CHECK(e2x == ECONF_SUCCESS && dbits(r2) == wb, "wrong-double", "getDoubleDef rc=" << e2x << " bits 0x" << std::hex << dbits(r2) << " expected 0x" << wb);
   } else {
     float r = 0, r2 = 0;
+    errno = POISONF[s.below(4)];
     econf_err e = econf_getFloatValue(kf, "N", "v", &r);
+    errno = POISONF[s.below(4)];
     econf_err e2x = econf_getFloatValueDef(kf, "N", "v", &r2, 1.0f);
     uint32_t wb = (uint32_t)want | (neg ? 1u << 31 : 0);
     VF_CHECK(e == ECONF_SUCCESS && fbits(r) == wb, "wrong-float",
